@@ -114,8 +114,10 @@ def oracle(p, o):
     # B202: extractall with a filter keyword and no members argument - only the string literal 'data' is the safe filter; a name
     # or attribute that happens to be spelled data is a variable like any other
     if on("B202") and "tarfile" in p["src"] and "nosec" not in p["src"]:
-        first_tar = min([n.lineno for n in ast.walk(tree) if isinstance(n, (ast.Import, ast.ImportFrom))
-                         and ("tarfile" in [a.name for a in n.names] or getattr(n, "module", None) == "tarfile")] or [10 ** 9])
+        # the module itself imported (import tarfile): what a from-import of one of its names says about an arbitrary receiver's
+        # extractall() is not something the statement settles
+        first_tar = min([n.lineno for n in ast.walk(tree) if isinstance(n, ast.Import) and "tarfile" in [a.name for a in n.names if a.asname is None]]
+                        or [10 ** 9])
         for c in allcalls:
             if not (isinstance(c.func, ast.Attribute) and c.func.attr == "extractall" and plain(c) and c.lineno > first_tar):
                 continue
